@@ -279,6 +279,19 @@ pub fn gen_c06(ctx: &Ctx, rng: &mut Rng, out: &mut Vec<String>) {
         for p in [17usize, 18, 100, 308, 309, 320, 400, 1000] { if t || p % 3 != 0 { out.push(format!("st.cmd\ts,sum,pi\t{p}\t{}\t{}", nats(&shape), bits(&data))); } }
         for precs in ["6,400,6", "320,0,2", "0,0,309"] { out.push(format!("st.cmd2\ts,sum,pi\t{precs}\t1\t-\t{}\t{}", nats(&shape), bits(&data))); }
     }
+    // (a3b) call sets that are almost entirely monomorphic (an all-sites VCF of a low-diversity region: 7e5 … 1e9 invariant sites next to a
+    //       handful of variants): every statistic is as well defined as on the variants alone
+    for (i, mono) in [700000.0f64, 1e7, 1e9, 3e9].into_iter().enumerate() {
+        if !t && i == 2 { continue; }
+        let shape = vec![9usize, 9];
+        let mut data = vec![0.0f64; 81];
+        data[0] = mono; data[80] = (i as f64) * 1000.0;
+        for (q, v) in [(1usize, 1.0f64), (9, 1.0), (10, 1.0), (20, 2.0), (47, 1.0)] { data[q] = v; }
+        out.push(format!("st.calc\ts,sum,f2,fst,pi-xy\t{}\t{}", nats(&shape), bits(&data)));
+        out.push(format!("st.cmd\tfst,f2,pi-xy,s\t9\t{}\t{}", nats(&shape), bits(&data)));
+        let mut d1 = vec![0.0f64; 17]; d1[0] = mono; d1[1] = 2.0; d1[2] = 1.0; d1[5] = 1.0;
+        out.push(format!("st.calc\tpi,theta,d-tajima,s,sum\t17\t{}", bits(&d1)));
+    }
     // (a4) theta at 2 x the size of well-known panels (n = 5008: 1000 Genomes), sparse spectra
     for n in [5008usize, 4096, 1024, 2504] {
         // (the exact-rational model evaluates the harmonic number once per element: n = 5008 costs minutes and is left to the thorough
@@ -371,6 +384,8 @@ pub fn gen_c14(ctx: &Ctx, rng: &mut Rng, out: &mut Vec<String>) {
             if !["sum", "d-fu-li"].contains(k) { out.push(format!("st.rel\tfold\t{k}\t{sh}\t{bs}\t-")); if i % 10 == 0 { out.push(format!("st.rel\tfoldcli\t{k}\t{sh}\t{bs}\t-")); } }
             // monomorphic entries: everything but sum, f2, f3, f4
             if !["sum", "f2", "f3", "f4"].contains(k) { out.push(format!("st.rel\tmono\t{k}\t{sh}\t{bs}\t{}", bits(&[rng.range(0, 100000) as f64, rng.range(0, 100000) as f64]))); }
+            // … and the count-based ones with a monomorphic cell at 2^53 and beyond (a total that swallows the polymorphic counts)
+            if i % 2 == 0 && ["s", "pi", "theta", "d-tajima", "pi-xy"].contains(k) { out.push(format!("st.rel\tmono\t{k}\t{sh}\t{bs}\t{}", bits(&[[9007199254740992.0f64, 1e18][i % 2], [3e9f64, 9007199254740992.0][(i / 2) % 2]]))); }
             // monomorphic entries that dwarf everything else (1e18, 2^62: far above 2^53) — the frequency-based statistics must not notice
             if i % 4 == 1 && ["fst", "king", "r0", "r1"].contains(k) { out.push(format!("st.rel\tmono\t{k}\t{sh}\t{bs}\t{}", bits(&[[1e18f64, 4611686018427387904.0][i % 2], [3e17f64, 1e18][(i / 2) % 2]]))); }
             // the same edit made in place on a spectrum whose total and statistic were already queried (every statistic: the value after
